@@ -21,6 +21,7 @@ import (
 	"github.com/google/go-tdx-guest/rtmr"
 	"github.com/google/go-tdx-guest/validate"
 	"github.com/google/go-tdx-guest/verify"
+	"github.com/google/go-tdx-guest/verify/trust"
 	"google.golang.org/protobuf/proto"
 	"google.golang.org/protobuf/reflect/protoreflect"
 	"verif/sim/core"
@@ -196,6 +197,7 @@ func c10Responses(t *core.Tape, w *world.World) []struct {
 		body []byte
 	}{
 		{"random", t.Bytes(500)},
+		{"empty-200", []byte{}},
 		{"deep-nesting", []byte(deep)},
 		{"deep-array", []byte(deepArr)},
 		{"huge-number", []byte(g(`{"id":"TDX","version":1e999999,"tcbLevels":[]}`))},
@@ -555,6 +557,13 @@ func c10Run(r *core.Run) {
 						verify.TdxQuote(m, opts)
 						_, _, err := verify.SupportedTcbLevelsFromCollateral(m, opts)
 						return err
+					})
+					// the same response behind the library's own retrying getter (what a caller who sets no getter
+					// gets): whatever a wrapped getter that does not fail answers, the call returns
+					c10Call(r, "verify.RawTdxQuote+collateral+RetryHTTPSGetter", name, func() error {
+						o := worldOpts(w, O2)
+						o.Getter = &trust.RetryHTTPSGetter{Timeout: 200 * time.Millisecond, MaxRetryDelay: 20 * time.Millisecond, Getter: w.PCS}
+						return verify.RawTdxQuote(raw, o)
 					})
 					set(route, orig[route])
 					r.State("pcs %s %s %s", route, resp.name, hd.name)
